@@ -136,15 +136,29 @@ impl IndexRead {
 
     /// Make an iterator that returns hunks of entries from this index,
     /// skipping any that are not present.
+    ///
+    /// # Panics
+    ///
+    /// If the index directory can't be listed. Use [IndexRead::try_iter_available_hunks]
+    /// anywhere a storage error must not bring the program down.
     pub async fn iter_available_hunks(self) -> IndexHunkIter {
+        self.try_iter_available_hunks()
+            .await
+            .expect("hunks available")
+    }
+
+    /// Make an iterator that returns hunks of entries from this index,
+    /// skipping any that are not present, or an error if the index directory
+    /// can't be listed.
+    pub async fn try_iter_available_hunks(self) -> Result<IndexHunkIter> {
         let _span = debug_span!("iter_hunks", ?self.transport).entered();
-        let hunks = self.hunks_available().await.expect("hunks available"); // TODO: Don't panic
+        let hunks = self.hunks_available().await?;
         debug!(?hunks);
-        IndexHunkIter {
+        Ok(IndexHunkIter {
             hunks: hunks.into_iter(),
             index: self,
             after: None,
-        }
+        })
     }
 }
 
